@@ -2520,3 +2520,100 @@ pub fn c17_builders(ctx: &mut Ctx) {
 }
 #[cfg(not(feature = "alloc"))]
 pub fn c17_builders(_ctx: &mut Ctx) {}
+
+// ---------------------------------------------------------------------------------------------
+// `swap` between values of different runtime types must be refused (C04); on the inline backends, so that the build without
+// the `alloc` feature runs it too (C19).
+
+pub fn swap_type_mismatch(ctx: &mut Ctx) {
+    let mut sp = Sp::new(ctx, "swap-types", "Stack-swap".into());
+    sp.ctx.ordinal = 0;
+    fn run<A: Elem, B: Elem>(sp: &mut Sp) {
+        let same = TypeId::of::<A>() == TypeId::of::<B>();
+        for how in 0..6u8 {
+            if !sp.take() {
+                continue;
+            }
+            reg::reset();
+            let names = ["element.swap(wrapper)", "wrapper.swap(element)", "element.swap(element of another vector)", "pop handle.swap(element)", "element.swap(raw)", "remove handle.swap(wrapper)"];
+            let opsig = names[how as usize];
+            let desc = format!("{}<->{}|{opsig}", A::NAME, B::NAME);
+            let ma = if A::ID_BITS == 0 { 0 } else { (1u64 << A::ID_BITS.min(32)) - 1 };
+            let mb = if B::ID_BITS == 0 { 0 } else { (1u64 << B::ID_BITS.min(32)) - 1 };
+            let mut va: AnyVec<dyn TNone, Stack<2048>> = AnyVec::new::<A>();
+            let mut vb: AnyVec<dyn TNone, StackN<4, 2048>> = AnyVec::new_in::<B>(StackN::<4, 2048>);
+            for i in 1..=3u64 {
+                va.push(AnyValueWrapper::new(A::make(i & ma)));
+                vb.push(AnyValueWrapper::new(B::make((i + 10) & mb)));
+            }
+            let r = guarded(|| match how {
+                0 => {
+                    let mut w = AnyValueWrapper::new(B::make(20 & mb));
+                    va.at_mut(1).swap(&mut w);
+                }
+                1 => {
+                    let mut w = AnyValueWrapper::new(B::make(20 & mb));
+                    w.swap(&mut *va.at_mut(1));
+                }
+                2 => {
+                    let mut x = va.at_mut(0);
+                    let mut y = vb.at_mut(2);
+                    x.swap(&mut *y);
+                }
+                3 => {
+                    let mut h = vb.pop().unwrap();
+                    h.swap(&mut *va.at_mut(2));
+                    drop(h);
+                }
+                4 => {
+                    let mut slot = RawSlot::<B>::new(21 & mb);
+                    let mut raw = unsafe { AnyValueRaw::new(slot.ptr(), size_of::<B>(), TypeId::of::<B>()) };
+                    va.at_mut(0).swap(&mut raw);
+                    drop(slot);
+                }
+                _ => {
+                    let mut h = va.remove(1);
+                    let mut w = AnyValueWrapper::new(B::make(22 & mb));
+                    h.swap(&mut w);
+                    drop(w);
+                    drop(h);
+                }
+            });
+            if same {
+                if let Err(m) = &r {
+                    sp.viol("type-reject", opsig, format!("a swap between values of the same type was refused: {m}"), &desc);
+                }
+            } else {
+                if r.is_ok() {
+                    sp.viol("type-admit", opsig, "a swap between values of different runtime types was carried out (no panic)".into(), &desc);
+                }
+                // refused: nothing may have changed in either vector (removal handles that were in flight are gone with their element)
+                let wa: Vec<Id> = if how == 5 { vec![1 & ma, 3 & ma] } else { (1..=3u64).map(|i| i & ma).collect() };
+                let wb: Vec<Id> = if how == 3 { vec![11 & mb, 12 & mb] } else { (11..=13u64).map(|i| i & mb).collect() };
+                match (snap_ids::<A, _, _>(&va), snap_ids::<B, _, _>(&vb)) {
+                    (Ok(x), Ok(y)) if x == wa && y == wb => {}
+                    other => sp.viol("type-reject", opsig, format!("after the refused swap the vectors hold {other:?}, expected {wa:?} / {wb:?}"), &desc),
+                }
+                sp.ctx.stats.bump("rejections", 1);
+            }
+            drop(va);
+            drop(vb);
+            for (tag, tracked) in [(A::TAG, A::TRACKED), (B::TAG, B::TRACKED)] {
+                if tracked && reg::live_total(tag) != 0 {
+                    sp.viol("leak", opsig, format!("{} instance(s) alive after everything was dropped", reg::live_total(tag)), &desc);
+                }
+            }
+            sp.drain_reg(opsig, &desc);
+            sp.done(&desc, true, opsig);
+        }
+    }
+    run::<W8d, W8d2>(&mut sp);
+    run::<W8d2, W8d>(&mut sp);
+    run::<W8d, W8>(&mut sp);
+    run::<S16d, S16d2>(&mut sp);
+    run::<W8d, S16d>(&mut sp);
+    run::<U1d, U1>(&mut sp);
+    run::<Z0d, Z0>(&mut sp);
+    run::<W8d, W8d>(&mut sp);
+    run::<S24d, S24d>(&mut sp);
+}
